@@ -22,6 +22,7 @@ def nontrivial(labels, stats, cfg, acts):
 def run_shard(ctx):
     bks = c03.backends(ctx)
     qmgen.drive_sequences(ctx, OWN, 4 if ctx.thorough else 3, nontrivial)
+    qmgen.drive_schedule_dfs(ctx, OWN, 9 if ctx.thorough else 6, nontrivial)
     strat = qmgen.history(qmgen.configs(bks, pools=True, announce=True), WEIGHTS)
     qmgen.drive_histories(ctx, OWN, strat, ctx.n(2500, 40000), nontrivial)
     qmgen.drive_histories(ctx, OWN, qmgen.burst_history(), ctx.n(1500, 25000), nontrivial, salt=7)
